@@ -126,6 +126,8 @@ def apply_rules(item, rules):
         if len(res) > 2 and res[2]:
             item.dropped.append('fields: ' + ', '.join(res[2]))
         want = args.get('count')
+        if n == 0 and args.get('optional'):
+            continue        # the construct this rule desugars is absent from the current text: nothing to do
         if n == 0 or (want is not None and n != want):
             raise Undecided('rule %s matched %d times in %s (expected %s)' % (name, n, item.qual, want or '>=1'))
         item.text = new
